@@ -6,6 +6,7 @@ import (
 	"fmt"
 	"reflect"
 	"runtime/debug"
+	"strings"
 	"time"
 
 	"github.com/aptpod/iscp-go/message"
@@ -216,9 +217,10 @@ type finding struct {
 }
 
 type outcome struct {
-	Kind string // "error" | "message"
-	Type string // message type when Kind == "message"
-	Err  string
+	Kind  string // "error" | "message"
+	Type  string // message type when Kind == "message"
+	Shape string // which fields are set, size classes of repeated fields, dynamic types (feedback signal and reach statistics)
+	Err   string
 }
 
 func isNilMsg(m message.Message) bool {
@@ -291,7 +293,7 @@ func judge(e enc, class string, b []byte) (outcome, *finding) {
 		return outcome{}, &finding{"DecodeFrom returned neither a message nor an error", "neither-message-nor-error:" + e.name, inputWitness(e, class, b)}
 	}
 	typ := msgType(m)
-	out := outcome{Kind: "message", Type: typ}
+	out := outcome{Kind: "message", Type: typ, Shape: shapeOf(reflect.ValueOf(m), 0)}
 	fail := func(clause, key, why string, extra map[string]any) (outcome, *finding) {
 		w := inputWitness(e, class, b)
 		w["decoded"] = clip(fmt.Sprintf("%+v", m), 1500)
@@ -306,14 +308,14 @@ func judge(e enc, class string, b []byte) (outcome, *finding) {
 		return fail("a panic escaped EncodeTo for a message the decoder produced", "panic-escaped:encode:"+e.name+":"+typ, fmt.Sprint(pv), map[string]any{"stack": st})
 	}
 	if err != nil {
-		return fail("a message the decoder produced cannot be encoded again", "reencode-failed:"+e.name+":"+typ, err.Error(), nil)
+		return fail("a message the decoder produced cannot be encoded again", "reencode-failed:"+e.name+":"+typ+":"+reasonSlug(err), err.Error(), nil)
 	}
 	_, m2, err, pv, st := decode(e, b2)
 	if pv != nil {
 		return fail("a panic escaped DecodeFrom on the re-encoding", "panic-escaped:redecode:"+e.name+":"+typ, fmt.Sprint(pv), map[string]any{"stack": st})
 	}
 	if err != nil || isNilMsg(m2) {
-		return fail("the re-encoding of a decoded message does not decode", "redecode-failed:"+e.name+":"+typ, fmt.Sprint(err), map[string]any{"reencoded_hex": clip(hex.EncodeToString(b2), 4096)})
+		return fail("the re-encoding of a decoded message does not decode", "redecode-failed:"+e.name+":"+typ+":"+reasonSlug(err), fmt.Sprint(err), map[string]any{"reencoded_hex": clip(hex.EncodeToString(b2), 4096)})
 	}
 	if ok, why := eqMsg(m, m2); !ok {
 		return fail("the re-encoding of a decoded message decodes to a different message", "roundtrip-differs:"+e.name+":"+typ+":"+pathClass(why), why,
@@ -347,4 +349,82 @@ func shortStack() string {
 		s = s[:3000]
 	}
 	return s
+}
+
+// reasonSlug is the letters-only skeleton of the innermost part of an error text (seed independent).
+func reasonSlug(err error) string {
+	if err == nil {
+		return "nil-message"
+	}
+	s := err.Error()
+	if i := strings.LastIndex(s, ": "); i >= 0 && i+2 < len(s) {
+		s = s[i+2:]
+	}
+	return errClass(s)
+}
+
+// shapeOf is a compact structural fingerprint of a decoded message: field presence, length classes, dynamic types.
+func shapeOf(v reflect.Value, depth int) string {
+	if !v.IsValid() || depth > 6 {
+		return "_"
+	}
+	switch v.Kind() {
+	case reflect.Pointer, reflect.Interface:
+		if v.IsNil() {
+			return "n"
+		}
+		if v.Kind() == reflect.Interface {
+			return v.Elem().Type().String() + shapeOf(v.Elem(), depth+1)
+		}
+		return "&" + shapeOf(v.Elem(), depth+1)
+	case reflect.Struct:
+		if v.Type() == timeType {
+			if v.Interface().(time.Time).UnixNano() == 0 {
+				return "t0"
+			}
+			return "t"
+		}
+		s := "{"
+		for i := 0; i < v.NumField(); i++ {
+			s += shapeOf(v.Field(i), depth+1)
+		}
+		return s + "}"
+	case reflect.Slice:
+		if v.Type().Elem().Kind() == reflect.Uint8 {
+			return fmt.Sprintf("b%d", sizeClass(v.Len()))
+		}
+		s := fmt.Sprintf("[%d", sizeClass(v.Len()))
+		if v.Len() > 0 {
+			s += shapeOf(v.Index(0), depth+1)
+		}
+		return s + "]"
+	case reflect.Map:
+		return fmt.Sprintf("m%d", sizeClass(v.Len()))
+	case reflect.String:
+		return fmt.Sprintf("s%d", sizeClass(v.Len()))
+	case reflect.Array:
+		if v.IsZero() {
+			return "a0"
+		}
+		return "a"
+	case reflect.Bool:
+		if v.Bool() {
+			return "T"
+		}
+		return "F"
+	case reflect.Int, reflect.Int8, reflect.Int16, reflect.Int32, reflect.Int64:
+		switch x := v.Int(); {
+		case x == 0:
+			return "0"
+		case x < 0:
+			return "-"
+		}
+		return "+"
+	case reflect.Uint, reflect.Uint8, reflect.Uint16, reflect.Uint32, reflect.Uint64:
+		if v.Uint() == 0 {
+			return "0"
+		}
+		return "+"
+	}
+	return "?"
 }
